@@ -52,6 +52,16 @@ static std::string value_for(Rng &r, const Property &d) {
 static void gen(Rng &r, const Property &d, Property &u, int depth) {
   bool list = d.hasAttribute("list");
   for (const Property &c : d) {
+    if (c.hasAttribute("unchecked") && !c.HasChildren()) {
+      // a DECLARED unchecked section (dftpackage: orca): free content, with and without the attribute repeated on the user's node
+      if (r.coin()) {
+        Property &n = u.add(c.name(), "");
+        if (r.coin(1, 3)) n.setAttribute("unchecked", "");
+        int k = 1 + (int)r.below(2);
+        for (int q = 0; q < k; q++) n.add("free" + std::to_string(r.below(3)), pick(r, {"anything", "B3LYP", "1"}));
+      }
+      continue;
+    }
     int copies = list ? (int)r.below(4) : (r.coin(c.hasAttribute("default") && c.getAttribute<std::string>("default") == "REQUIRED" ? 9 : 5, 10) ? 1 : 0);
     if (!list && r.coin(1, 40)) copies = 2;     // the same option twice: last one wins
     for (int k = 0; k < copies; k++) {
@@ -60,6 +70,8 @@ static void gen(Rng &r, const Property &d, Property &u, int depth) {
     }
   }
   if (r.coin(1, 60)) u.add("notanoption", "1");
+  // an undeclared name under a user node that carries the attribute `unchecked` itself (the section is NOT declared unchecked)
+  if (depth > 0 && !d.hasAttribute("unchecked") && !list && r.coin(1, 120)) { u.setAttribute("unchecked", ""); u.add("smuggled", "1"); }
   if (d.hasAttribute("unchecked") && r.coin()) { u.add("free" + std::to_string(r.below(3)), "anything"); }
 }
 
